@@ -238,6 +238,10 @@ type behContext struct {
 // violation (C14: a reference that resolves to a non-existent or wrong package).
 var behCompileErrIsViolation bool
 
+// behCrashIsViolation: the running property claims certain start-up crashes as its own violation
+// (C13: the generated init() asserts the getter interface).
+var behCrashIsViolation func(crash string) bool
+
 // behBatch runs the members through the tool, builds and probes the accepted ones in
 // one batch and calls check for each. Members the tool rejects are handed to
 // onReject (nil = count as excluded). Returns the number of members probed.
@@ -291,6 +295,10 @@ func behBatch(t tb, c behCase, nontrivial func(m behMember, merged cfg.Config) b
 		cn := bc.Cont
 		if cn.CompileErr != "" && behCompileErrIsViolation {
 			violation(t, "compile:"+compileKey(cn.CompileErr), "generated code does not compile: "+oneLine(cn.CompileErr), bc.One)
+			continue
+		}
+		if cn.Crashed != "" && behCrashIsViolation != nil && behCrashIsViolation(cn.Crashed) {
+			violation(t, "init-crash", "the generated package panics during initialisation: "+oneLine(cn.Crashed), bc.One)
 			continue
 		}
 		if cn.CompileErr != "" || cn.Crashed != "" || cn.Out == nil || !cn.Out.Alive {
